@@ -1829,12 +1829,17 @@ PIP_Solution_Node::Tableau
         j_mismatch = j1.index();
         goto end_loop;
       }
+      ++j1;
     }
   }
 
  end_loop:
+  // NOTE: at the mismatching column one of the two rows may have no
+  // stored element (j0 or j1 may even be past-the-end): read the
+  // coefficients by column index.
   return (j_mismatch != num_params)
-    && column_lower(s, mapping, basis, s_0, col_0, s_1, col_1, *j0, *j1);
+    && column_lower(s, mapping, basis, s_0, col_0, s_1, col_1,
+                    t_0.get(j_mismatch), t_1.get(j_mismatch));
 }
 
 void
